@@ -267,12 +267,12 @@ def stmt_list(body):
     if body.get("k") != "Block":
         return [body]
     st = body["c"]
-    if not any(s.get("k") in ("Decl", "Null") or (s.get("k") == "Call" and (s.get("fn") or "").startswith("Opm::OpmLog::")) for s in st):
+    if not any(s.get("k") in ("Decl", "Null_") or (s.get("k") == "Call" and (s.get("fn") or "").startswith("Opm::OpmLog::")) for s in st):
         return st
     out = []
     for i, s in enumerate(st):
         k = s.get("k")
-        if k == "Null":
+        if k == "Null_":
             continue
         if k == "Call" and (s.get("fn") or "").startswith("Opm::OpmLog::") and all(_pure(a) for a in s.get("a") or []):
             continue
